@@ -17,6 +17,7 @@ import (
 	"bytes"
 	"fmt"
 	"io"
+	"math/big"
 	"net/http"
 	"net/http/httptest"
 	"strconv"
@@ -163,6 +164,7 @@ type c04SigStep struct {
 	Kind   string    `json:"k"` // valid tamper abort
 	Req    c04SigReq `json:"req"`
 	Off    int64     `json:"off,omitempty"` // timestamp offset (seconds)
+	Abs    string    `json:"abs,omitempty"` // valid: absolute timestamp, decimal (overrides Off)
 	Tamper string    `json:"tamper,omitempty"`
 	Arg    int       `json:"arg,omitempty"`
 	TFr    string    `json:"tfr,omitempty"`   // framing of the tampered request ("=": as signed)
@@ -245,6 +247,23 @@ func c04SigInterp(t *testing.T, c c04SigCase) (v kit.Verdict) {
 					classes["chunked+encrypted(body unjudged)"] = true
 				}
 				exp := c04Tolerance(ts, now, tol)
+				wire := c04Sign(st.Req, ts)
+				if st.Abs != "" {
+					abs, ok := new(big.Int).SetString(st.Abs, 10)
+					if !ok {
+						fail = "harness: bad absolute timestamp " + st.Abs
+						return
+					}
+					exp = c04ToleranceBig(abs, now, tol)
+					wire = c04SignStr(st.Req, st.Abs)
+					classes["valid:absolute-timestamp"] = true
+				}
+				if tol >= 30*24*time.Hour || (tol > 0 && tol < time.Second) {
+					classes["tolerance:extreme"] = true
+				}
+				if st.Req.PLen > 0 || st.Req.QLen > 0 {
+					classes["long-path-or-query"] = true
+				}
 				if !judged {
 					exp = c04Unspec
 				}
@@ -260,8 +279,8 @@ func c04SigInterp(t *testing.T, c c04SigCase) (v kit.Verdict) {
 				if afterAbort && exp == c04Accept {
 					classes["valid-right-after-abort"] = true
 				}
-				code, s := send(c04Sign(st.Req, ts))
-				what := fmt.Sprintf("step %d valid (timestamp now%+ds, tolerance %v, now has %dms, %s %s)", i, st.Off, tol, c.NowMs, st.Req.Method, st.Req.Path)
+				code, s := send(wire)
+				what := fmt.Sprintf("step %d valid (timestamp now%+ds abs=%q, tolerance %v, now has %dms, %s %s)", i, st.Off, st.Abs, tol, c.NowMs, st.Req.Method, st.Req.Path)
 				if msg := c04SigJudge(what, exp, wantBody, code, s); msg != "" {
 					fail = msg
 					return
@@ -344,8 +363,9 @@ func c04SigInterp(t *testing.T, c c04SigCase) (v kit.Verdict) {
 
 // ---- generator
 
-var c04Paths = []string{"/", "/a", "/a/b", "/api/v1/users/42", "/x-y_z/0", "/a/b/c/d/e", "/a%20b/c", "/caf%C3%A9/%7Euser"}
-var c04Queries = []string{"", "", "a=1", "c=d&e=f", "q=x%20y&z=", "k", "a=1&a=2"}
+var c04Paths = []string{"/", "/a", "/a/b", "/api/v1/users/42", "/x-y_z/0", "/a/b/c/d/e", "/a%20b/c", "/caf%C3%A9/%7Euser",
+	"/%25s%25d/%25%21v", "/a*b/%3Fc%5Bd%5D%7Be%7D", "/%24%28x%29%3B%60y%60%7C%26", "/a%00b", "/A/b/C", "/a+b/c=d;e"}
+var c04Queries = []string{"", "", "a=1", "c=d&e=f", "q=x%20y&z=", "k", "a=1&a=2", "f=%25s%25d", "g=*?[x]", "h=%00&i=%E5%90%8D", "A=1&a=1", "j=a+b&k=a%2Bb"}
 var c04Bodies = []string{"", "", "x", "x", "hello", `{"name":"alice","n":1}`, "0123456789abcdef", "0123456789abcdef0", "üñí\x00\x01 binary", "AAAA"}
 
 func c04GenSigReq(rt *rapid.T) c04SigReq {
@@ -355,7 +375,11 @@ func c04GenSigReq(rt *rapid.T) c04SigReq {
 	r.Query = rapid.SampledFrom(c04Queries).Draw(rt, "query")
 	r.Body = rapid.SampledFrom(c04Bodies).Draw(rt, "body")
 	if r.Body != "" && rapid.IntRange(0, 5).Draw(rt, "big?") == 0 {
-		r.Big = rapid.SampledFrom([]int{17, 4096, 70000}).Draw(rt, "big")
+		r.Big = rapid.SampledFrom([]int{17, 4096, 70000, 127, 128, 255, 256, 257, 32768, 65535, 65536}).Draw(rt, "big")
+	}
+	if rapid.IntRange(0, 19).Draw(rt, "long?") == 7 {
+		r.PLen = rapid.SampledFrom([]int{0, 100, 1000, 65536}).Draw(rt, "plen")
+		r.QLen = rapid.SampledFrom([]int{0, 100, 1000, 100000}).Draw(rt, "qlen")
 	}
 	r.Fr = rapid.SampledFrom([]string{"", "", "chunked", "chunked", "nobody"}).Draw(rt, "framing")
 	r.ReqURI = rapid.IntRange(0, 3).Draw(rt, "requri") == 0
@@ -390,7 +414,8 @@ func c04GenAnyOff(rt *rapid.T, tolS int64) int64 {
 func c04SigGen(rt *rapid.T) c04SigCase {
 	c := c04SigCase{}
 	c.Strict = rapid.IntRange(0, 9).Draw(rt, "strict") < 9
-	c.TolMs = rapid.SampledFrom([]int64{1000, 2000, 5000, 60000, 3600000, 3600000, 1500, 2999, 0}).Draw(rt, "tol")
+	c.TolMs = rapid.SampledFrom([]int64{1000, 2000, 5000, 60000, 3600000, 3600000, 1500, 2999, 0,
+		1, 999, 30 * 86400 * 1000, 100 * 365 * 86400 * 1000, 9223372036854}).Draw(rt, "tol")
 	if rapid.IntRange(0, 3).Draw(rt, "frac") == 0 {
 		c.NowMs = rapid.SampledFrom([]int{1, 250, 500, 999}).Draw(rt, "nowms")
 	}
@@ -415,6 +440,12 @@ func c04SigGen(rt *rapid.T) c04SigCase {
 				st.Off = c04GenAnyOff(rt, tolS)
 			} else {
 				st.Off = c04GenInTol(rt, tolS)
+			}
+			if rapid.IntRange(0, 9).Draw(rt, "abs?") == 4 {
+				// canonical decimal integers of every magnitude (946684800 = the bubble's start)
+				st.Abs = rapid.SampledFrom([]string{"0", "1", "-1", "946684800", "2147483647", "2147483648", "4294967296", "-2147483649",
+					"9007199254740993", "9223372036854775807", "-9223372036854775808", "9223372036854775808", "-9223372036854775809",
+					"18446744073709551616", "4102444800", "-2208988800"}).Draw(rt, "abs")
 			}
 			r := st.Req
 			lastValid = &r
